@@ -70,8 +70,11 @@ func r16dep(c *core.Ctx) {
 		} else if strings.HasPrefix(supi, "call:fmt.Sprintf(") {
 			// a Sprintf whose width is not the IMSI's own length loses or adds digits
 			c.Fail(R, "stgutg.CreateUE:supi-format", call.Pos(), "SUPI is built as %s: it must be \"imsi-\" + decimal(IMSI+index) zero-padded to the number of digits of the configured IMSI (width len(imsi)), otherwise leading zeros / the digit count, and with them MCC and MNC, are not preserved", clip(supi))
+		} else if es, _, okE := r16depEval(c); okE && es == "sprintf(\"imsi-%0*d\"|len(p0),(atoi(p0)+p1))" {
+			// the same value reached through helpers: read off the abstract argument of NewRanUeContext
+			c.Ok(R, "stgutg.CreateUE:supi-format", call.Pos(), "imsi-%0*d with width len(imsi) of IMSI+index (through helpers)")
 		} else {
-			c.Undecided("CreateUE builds the SUPI in a form the rule does not recognise: %s", clip(supi))
+			c.SoftUndecided("CreateUE builds the SUPI in a form the rule does not recognise: %s", clip(supi))
 		}
 	}
 	// RAN-UE-NGAP-ID
@@ -87,6 +90,14 @@ func r16dep(c *core.Ctx) {
 						okRan = true
 					}
 				}
+			}
+		}
+	}
+	if !okRan {
+		if _, er, okE := r16depEval(c); okE && strings.HasPrefix(er, "((atoi(p0)+p1)%") && strings.HasSuffix(er, ")") {
+			var k int64
+			if n, _ := fmt.Sscanf(er, "((atoi(p0)+p1)%%%d)", &k); n == 1 {
+				okRan, m = true, k
 			}
 		}
 	}
